@@ -388,6 +388,18 @@ def run(tier: str) -> Report:
     ctx = mp.get_context('fork')
     with ctx.Pool(processes=min(14, os.cpu_count() or 4)) as pool:
         results = pool.map(run_case, jobs, chunksize=1)
+    # true parallelism (a sample): separate processes, no scheduler
+    from .. import parallel  # pylint: disable=import-outside-toplevel
+
+    for i in range(2 if tier == 'quick' else 25):
+        pr = parallel.run_parallel(i, 1.5 if tier == 'quick' else 4.0)
+        if pr.get('infra'):
+            rep.infra.append(pr['infra'])
+        for sig, text in pr['failures'][:2]:
+            rep.failures.append({'signature': sig, 'text': 'processes running in parallel: ' + text, 'replay': {'kind': 'parallel', 'case_id': i, 'seed': common.seed()}})
+        for k, v in pr['stats'].items():
+            rep.stats[k] = rep.stats.get(k, 0) + v
+        rep.evaluations += 1
     scheds = set()
     for r in results:
         rep.evaluations += 1
@@ -407,7 +419,8 @@ def run(tier: str) -> Report:
                 'duplicate content; 1-3 readers: single / bulk / metadata / existence / seeking, fresh or long-open handles) as threads under a '
                 'cooperative scheduler switching at every file-system call and SQL statement; seeded random schedules plus single-preemption '
                 'placements of all other actors at the i-th I/O call of the packer; distinct = distinct schedule prefixes')
-    rep.assumptions = ['the scheduler serialises the actors: true parallel execution, the atomicity of rename/unlink and SQLite\'s own locking are assumed, not explored',
+    rep.assumptions = ['the scheduler serialises the actors: the atomicity of rename/unlink and SQLite\'s own locking are assumed; true parallel execution is only sampled '
+                       '(a few seconds of writer, reader and packer processes per run), not explored',
                        'SQLite WAL snapshot isolation']
     return rep
 
@@ -415,6 +428,18 @@ def run(tier: str) -> Report:
 def replay(path: str) -> int:
     doc = json.loads(open(path).read())
     rp = doc.get('replay') or {}
+    if rp.get('kind') == 'parallel':
+        from .. import parallel  # pylint: disable=import-outside-toplevel
+
+        os.environ['VERIF_SEED'] = str(rp.get('seed', 0))
+        pr = parallel.run_parallel(rp['case_id'], 4.0)
+        for sig, text in pr['failures']:
+            print('FAIL', sig, text)
+        if pr['failures']:
+            print(f'VIOLATION property=C04 replay={path}')
+            return 1
+        print('the parallel run is a sample: this time nothing failed')
+        return 0
     if rp.get('kind') != 'sched':
         print('nothing to replay')
         return 2
